@@ -30,7 +30,7 @@ from socket import AF_NETLINK, NETLINK_ROUTE, if_nametoindex
 import socket
 from struct import pack, unpack_from
 
-from .ebpf import EBPF, MemoryDesc
+from .ebpf import EBPF, IAdd, MemoryDesc
 from .bpf import ProgType
 from .util import sub
 
@@ -128,6 +128,8 @@ class PacketArray:
         return self.memory[self.ebpf.r[self.no] + pos]
 
     def __setitem__(self, pos, value):
+        if isinstance(value, IAdd):  # no atomic operations on packets
+            value = self[pos] + value.value
         self.memory[self.ebpf.r[self.no] + pos] = value
 
 
@@ -188,6 +190,11 @@ class PacketVar(MemoryDesc):
 
     def fmt_addr(self, instance):
         return self.fmt, self.address
+
+    def __set__(self, instance, value):
+        if isinstance(value, IAdd):  # no atomic operations on packets
+            value = self.__get__(instance, None) + value.value
+        super().__set__(instance, value)
 
 
 class XDP(EBPF):
